@@ -33,8 +33,10 @@ PARTIAL = [
     "bond(SGE) <= operator Schmidt rank for every distinct-term Hamiltonian is the research claim of the method "
     "(combine_subtrees, Gamma matrix, symbolic elimination, vertex cover); it is not proved: it is decided per input by "
     "the numerical Schmidt rank of the dense Hamiltonian with generic values",
-    "bond_ge_rank (no exact factorisation through a bond of dimension r represents an operator of Schmidt rank > r) is "
-    "proved for matrices over a field; the identification of a TTNO's edge cut with such a factorisation is informal",
+    "proved around it: bond_eq_cover (the bond created at a cut = |Cu|+|Cv| of the chosen cover, bilinear routing), "
+    "cover_ge_rank (a cover of the support of a matrix is at least its rank), bond_ge_schmidt_rank (no exact "
+    "factorisation through r indices represents an operator of Schmidt rank > r); the identification of a TTNO's edge "
+    "cut with such a factorisation and the optimality of the elimination + minimum cover (rank reached) are not proved",
     "genericity is sampled (random complex values), not symbolic",
 ]
 ASSUMPTIONS = ["numerical rank threshold 1e-9 relative to the largest singular value; dense dimension <= 72 (quick) / 216"]
